@@ -6,6 +6,7 @@
 //!   binary-decode-db <hex> <db json>   Deserializer with a custom reflection database; bit-exact tree view
 //!   material-colors <json>       MaterialColors encode / decode / get_color on a concrete map or blob
 //!   tags <json>                  Tags encode / decode on concrete names or a blob
+//!   binary-encode <json file>    Serializer (compression off, custom database) on a DOM built from bit patterns, then read back
 //!   binary-write-sink <room>     rbx_binary::to_writer of a one-Folder DOM into a sink with room for <room> bytes
 use std::io::Read;
 
@@ -71,7 +72,44 @@ fn build(kind: &str, v: &Value) -> Variant {
             style: FontStyle::from_u8(a[1].as_u64().unwrap() as u8).unwrap(),
             cached_face_id: if a[3].is_null() { None } else { Some(string(&a[3])) },
         }),
+        "Int64" => Variant::Int64(v.as_i64().unwrap()),
+        "Ray" => Variant::Ray(Ray::new(v3(&a[0..3]), v3(&a[3..6]))),
+        "Faces" => Variant::Faces(Faces::from_bits(v.as_u64().unwrap() as u8).expect("faces bits")),
+        "Axes" => Variant::Axes(Axes::from_bits(v.as_u64().unwrap() as u8).expect("axes bits")),
+        "Enum" => Variant::Enum(Enum::from_u32(v.as_u64().unwrap() as u32)),
+        "Vector3int16" => Variant::Vector3int16(Vector3int16::new(a[0].as_i64().unwrap() as i16, a[1].as_i64().unwrap() as i16, a[2].as_i64().unwrap() as i16)),
+        "Color3uint8" => Variant::Color3uint8(Color3uint8::new(a[0].as_u64().unwrap() as u8, a[1].as_u64().unwrap() as u8, a[2].as_u64().unwrap() as u8)),
+        "PhysicalProperties" => {
+            if v.is_null() {
+                Variant::PhysicalProperties(PhysicalProperties::Default)
+            } else {
+                Variant::PhysicalProperties(PhysicalProperties::Custom(CustomPhysicalProperties {
+                    density: f(&a[0]),
+                    friction: f(&a[1]),
+                    elasticity: f(&a[2]),
+                    friction_weight: f(&a[3]),
+                    elasticity_weight: f(&a[4]),
+                }))
+            }
+        }
         other => panic!("replayer: unsupported attribute kind {}", other),
+    }
+}
+
+/// value from the Python side's field dictionary (FIELDS in vlib/mirsym/bincheck.py), fixed-size kinds only
+fn build_fields(kind: &str, d: &Value) -> Variant {
+    let u = |k: &str| d[k].as_u64().unwrap();
+    let fl = |k: &str| f32::from_bits(u(k) as u32);
+    match kind {
+        "Bool" => Variant::Bool(d["v"].as_bool().unwrap_or_else(|| u("v") != 0)),
+        "Int32" => Variant::Int32(u("v") as u32 as i32),
+        "Int64" => Variant::Int64(u("v") as i64),
+        "Float32" => Variant::Float32(fl("v")),
+        "Enum" => Variant::Enum(Enum::from_u32(u("v") as u32)),
+        "Vector3" => Variant::Vector3(Vector3::new(fl("x"), fl("y"), fl("z"))),
+        "Color3" => Variant::Color3(Color3::new(fl("r"), fl("g"), fl("b"))),
+        "Color3uint8" => Variant::Color3uint8(Color3uint8::new(u("r") as u8, u("g") as u8, u("b") as u8)),
+        other => panic!("replayer: unsupported field-dict kind {}", other),
     }
 }
 
@@ -146,6 +184,12 @@ fn tree_view(dom: &rbx_dom_weak::WeakDom) -> Value {
                     .map(|(k, v)| {
                         let vv = match v {
                             Variant::Ref(t) => json!({"Ref": if t.is_none() { json!(null) } else { json!(pos(*t)) }}),
+                            Variant::Content(c) => match c.value() {
+                                ContentType::None => json!({"Content": null}),
+                                ContentType::Uri(u) => json!({"Content": {"Uri": u.as_bytes().to_vec()}}),
+                                ContentType::Object(t) => json!({"Content": {"Object": if t.is_none() { json!(null) } else { json!(pos(*t)) }}}),
+                                _ => json!({"Content": "?"}),
+                            },
                             other => view(other),
                         };
                         (k.to_string(), vv)
@@ -181,6 +225,9 @@ fn custom_database(spec: &Value) -> rbx_reflection::ReflectionDatabase<'static> 
                         _ => PropertyKind::Canonical {
                             serialization: match &kind[1] {
                                 Value::String(s) if s == "DoesNotSerialize" => PropertySerialization::DoesNotSerialize,
+                                Value::Array(a) if a[0] == "Migrate" => PropertySerialization::Migrate(
+                                    serde_json::from_value(json!({"To": a[1], "Migration": a[2]})).expect("migration spec"),
+                                ),
                                 Value::Array(a) => PropertySerialization::SerializesAs(a[1].as_str().unwrap().to_string().into()),
                                 _ => PropertySerialization::Serializes,
                             },
@@ -188,6 +235,11 @@ fn custom_database(spec: &Value) -> rbx_reflection::ReflectionDatabase<'static> 
                     };
                 }
                 cd.properties.insert(pname.clone().into(), pd);
+            }
+        }
+        if let Some(defs) = c.get("defaults").and_then(|p| p.as_object()) {
+            for (pname, d) in defs {
+                cd.default_properties.insert(pname.clone().into(), build_fields(d[0].as_str().unwrap(), &d[1]));
             }
         }
         db.classes.insert(cname.clone().into(), cd);
@@ -316,6 +368,42 @@ pub fn main(args: &[String]) {
                     Ok(t) => println!("{}", json!({"tags": list(&t), "reencoded": t.encode()})),
                     Err(e) => println!("{}", json!({"tags": null, "err": e.to_string()})),
                 }
+            }
+        }
+        "binary-encode" => {
+            // {"class": C, "prop": P, "values": [{"kind":K,"v":..}..], "db": {...}}: one instance per value under the root,
+            // written with compression off through the real Serializer, then read back; prints the file and the decoded view
+            let spec: Value = serde_json::from_str(&std::fs::read_to_string(&args[1]).unwrap()).unwrap();
+            let db = custom_database(&spec["db"]);
+            let mut dom = rbx_dom_weak::WeakDom::new(rbx_dom_weak::InstanceBuilder::new("DataModel"));
+            let root = dom.root_ref();
+            let mut refs = Vec::new();
+            if let Some(insts) = spec.get("instances").and_then(|x| x.as_array()) {
+                for (i, e) in insts.iter().enumerate() {
+                    let mut b = rbx_dom_weak::InstanceBuilder::new(spec["class"].as_str().unwrap()).with_name(format!("N{}", i + 1));
+                    for p in e.as_array().unwrap() {
+                        b = b.with_property(p[0].as_str().unwrap(), build_fields(p[1].as_str().unwrap(), &p[2]));
+                    }
+                    refs.push(dom.insert(root, b));
+                }
+            }
+            for (i, e) in spec["values"].as_array().cloned().unwrap_or_default().iter().enumerate() {
+                let b = rbx_dom_weak::InstanceBuilder::new(spec["class"].as_str().unwrap())
+                    .with_name(format!("N{}", i + 1))
+                    .with_property(spec["prop"].as_str().unwrap(), build(e["kind"].as_str().unwrap(), &e["v"]));
+                refs.push(dom.insert(root, b));
+            }
+            let mut out = Vec::new();
+            let r = rbx_binary::Serializer::new()
+                .reflection_database(&db)
+                .compression_type(rbx_binary::CompressionType::None)
+                .serialize(&mut out, &dom, &refs);
+            match r {
+                Err(e) => println!("{}", json!({"write_err": e.to_string()})),
+                Ok(()) => match rbx_binary::Deserializer::new().reflection_database(&db).deserialize(&out[..]) {
+                    Ok(back) => println!("{}", json!({"file": hex(&out), "decoded": tree_view(&back)})),
+                    Err(e) => println!("{}", json!({"file": hex(&out), "read_err": e.to_string()})),
+                },
             }
         }
         "binary-write-sink" => {
